@@ -1,4 +1,4 @@
-CONSTANTS Scope = 1  NRuns = 2  Design = "asbuilt"  Bug = "WoDecIsHex"  Emit = FALSE
+CONSTANTS Scope = 1  NRuns = 2  Design = "asbuilt"  Bug = "WoDropsZeroOffsets"  Emit = FALSE
 CONSTANT Comps <- Only_wo
 CONSTANT DevSet <- AllDevs
 INIT Init
